@@ -445,9 +445,9 @@ theorem sp_acceptTag_some_g {t : Text} (h : IsTagName t) {inp tl : Text}
     (hs : Sc (tagKV (some t)) inp tl) (ht : Stop tl) :
     Sp acceptTag inp () tl (tagKV (some t)) := by
   simp only [tagKV] at hs
-  obtain ⟨w1, m1, hw1, rfl, hs⟩ := sc_cons_inv hs
-  obtain ⟨w2, m2, hw2, rfl, hs⟩ := sc_cons_inv hs
-  have := sc_nil_inv hs; subst this
+  obtain ⟨w1, m1, hw1, rfl, hs1⟩ := sc_cons_inv hs
+  obtain ⟨w2, m2, hw2, rfl, hs2⟩ := sc_cons_inv hs1
+  have := sc_nil_inv hs2; subst this
   unfold acceptTag
   sp_begin
   sp_step (sp_scanEmit .tag (w := 35 :: t) (tl := w1 ++ 61 :: (w2 ++ m2))
@@ -481,22 +481,22 @@ theorem sp_prefixLoop_g : ∀ (pre : List Bool) (n : Nat) (inp tl : Text), pre.l
     | zero => omega
     | succ n =>
       simp only [List.map_cons] at hs
-      obtain ⟨w, m, hw, rfl, hs⟩ := sc_cons_inv hs
-      have hst : Stop m := (sc_hd hs (hd_pre pre htl) termStart_32).stop @tokc_termStart
+      obtain ⟨w, m, hw, rfl, hs1⟩ := sc_cons_inv hs
+      have hst : Stop m := (sc_hd hs1 (hd_pre pre htl) termStart_32).stop @tokc_termStart
       have hn' : pre.length < n := by simp at hn; omega
       cases b with
       | true =>
         have hs' : s.rest = 38 :: (w ++ m) := by simpa [preKV, spell] using hs0
         obtain ⟨h1, h2⟩ := skipTrivia_trivia (s := (s.adv 1).emit .posPred [38]) (ws := w)
           (by simp [hs']) hw hst
-        have := (ih n m tl hn' hs htl).from s _ h1 (k0 := [(.posPred, [38])]) (by simp [h2])
+        have := (ih n m tl hn' hs1 htl).from s _ h1 (k0 := [(.posPred, [38])]) (by simp [h2])
           (kk := (true :: pre).map preKV) (by simp [preKV])
         simpa [prefixLoop, peek_cons hs'] using this
       | false =>
         have hs' : s.rest = 33 :: (w ++ m) := by simpa [preKV, spell] using hs0
         obtain ⟨h1, h2⟩ := skipTrivia_trivia (s := (s.adv 1).emit .negPred [33]) (ws := w)
           (by simp [hs']) hw hst
-        have := (ih n m tl hn' hs htl).from s _ h1 (k0 := [(.negPred, [33])]) (by simp [h2])
+        have := (ih n m tl hn' hs1 htl).from s _ h1 (k0 := [(.negPred, [33])]) (by simp [h2])
           (kk := (false :: pre).map preKV) (by simp [preKV])
         simpa [prefixLoop, peek_cons hs'] using this
 
@@ -628,18 +628,12 @@ theorem postItems_ok {p : Post} {items : List (Option Nat)} (h : postItems p = s
 
 /-- the sub-scanner behind `{` -/
 theorem sp_braces_g (items : List (Option Nat)) (hok : okItems items = true) (N : Nat)
-    (hN : items.length < N) {F t m : Text}
-    (hs : Sc (items.map itemKV ++ [(.rbrace, [125])]) t m) (hF : Tr F t) :
-    ∃ F', Tr F' m ∧
-      Sp (do boundsLoop N; triv; expect 125 .rbrace .expectedRBrace; pure true : M Bool)
-        F true F' (items.map itemKV ++ [(.rbrace, [125])]) := by
-  obtain ⟨t2, h1, h2⟩ := sc_append _ hs
-  obtain ⟨w, m', hw, rfl, h3⟩ := sc_cons_inv h2
-  have := sc_nil_inv h3; subst this
-  refine ⟨w ++ m', Tr.mk hw m', ?_⟩
+    (hN : items.length < N) {F t X : Text}
+    (hs : Sc (items.map itemKV) t (125 :: X)) (hF : Tr F t) :
+    Sp (do boundsLoop N; triv; expect 125 .rbrace .expectedRBrace; pure true : M Bool)
+      F true X (items.map itemKV ++ [(.rbrace, [125])]) := by
   sp_begin
-  sp_step (sp_boundsLoop_g items N F t (125 :: (w ++ m')) hN hok (by simp)
-    (by simpa [spell] using h1) hF)
+  sp_step (sp_boundsLoop_g items N F t (125 :: X) hN hok (by simp) hs hF)
   sp_step (sp_triv_id (stop_tokc _ (by decide)))
   sp_step (sp_expect 125 .rbrace .expectedRBrace _)
   exact Sp.pure true _
@@ -651,10 +645,6 @@ theorem sp_postfixOp_g (p : Post) {F t m : Text} (hs : Sc (postKV p) t m) (hF : 
   have hst : Stop t := (sc_hd hs (hd_postKV p m) afterNode_32).stop @tokc_afterNode
   cases hp : postItems p with
   | none =>
-    have simple : ∀ (c : Nat) (kind : TK), postKV p = [(kind, [c])] →
-        (∀ s : St, s.rest = c :: (t.drop 1) → acceptPostfixOp.match_1 = acceptPostfixOp.match_1 → True) →
-        True := fun _ _ _ _ => trivial
-    clear simple
     cases p with
     | opt =>
       simp only [postKV] at hs
@@ -700,17 +690,228 @@ theorem sp_postfixOp_g (p : Post) {F t m : Text} (hs : Sc (postKV p) t m) (hF : 
     have hkv := postKV_items hp
     rw [hkv] at hs
     obtain ⟨w0, t1, hw0, rfl, hs1⟩ := sc_cons_inv hs
-    have hlen := items_length_le items (sc_append _ hs1).choose_spec.1
-    -- the braces part, for any fuel above the number of items
-    have hbr : ∀ N, items.length < N → _ := fun N hN =>
-      sp_braces_g items (postItems_ok hp) N hN hs1 (Tr.mk hw0 t1)
-    -- the result does not depend on the fuel: fix the one the scanner uses below
-    suffices h : ∀ s0 : St, s0.rest = F → ∃ F', Tr F' m ∧ ∃ s', acceptPostfixOp s0 = .ok true s' ∧
-        s'.rest = F' ∧ out s' = out s0 ++ postKV p by
-      -- `F'` is the same for every state: it is determined by the text
-      obtain ⟨F', hF', _⟩ := hbr (items.length + 1) (by omega)
-      refine ⟨F', hF', ?_⟩
-      intro s0 hs0
-      obtain ⟨F'', hF'', s', e, r, o⟩ := h s0 hs0
-      sorry
-    sorry
+    obtain ⟨t2, h1, h2⟩ := sc_append _ hs1
+    obtain ⟨w3, m', hw3, rfl, h3⟩ := sc_cons_inv h2
+    have := sc_nil_inv h3; subst this
+    have h1' : Sc (items.map itemKV) t1 (125 :: (w3 ++ m')) := by simpa [spell] using h1
+    have hlen := items_length_le items h1'
+    refine ⟨w3 ++ m', Tr.mk hw3 m', ?_⟩
+    intro s0 hs0
+    obtain ⟨hr, ho⟩ := skipTrivia_tr (s := s0) (by rw [hs0]; exact hF) hst
+    simp only [acceptPostfixOp]
+    generalize skipTrivia s0 = s at hr ho
+    have hr' : s.rest = 123 :: (w0 ++ t1) := by simpa [spell] using hr
+    have hN : items.length < ((s.adv 1).emit .lbrace [123]).rest.length + 1 := by
+      simp [hr']; omega
+    have := (sp_braces_g items (postItems_ok hp) _ hN h1' (Tr.mk hw0 t1)).from s0
+      ((s.adv 1).emit .lbrace [123]) (by simp [hr'])
+      (k0 := [(.lbrace, [123])]) (by simp [ho]) (kk := postKV p) (by rw [hkv]; simp)
+    simpa [peek_cons hr'] using this
+
+theorem sp_postfixOp_no_g {F tl : Text} (h : Tr F tl) (htl : Hd afterTerm tl) :
+    Sp acceptPostfixOp F false tl [] := by
+  intro s0 hs0
+  obtain ⟨hr, ho⟩ := skipTrivia_tr (s := s0) (by rw [hs0]; exact h) (htl.stop @tokc_afterTerm)
+  obtain ⟨c, r, rfl, hc⟩ := htl.dest
+  refine ⟨skipTrivia s0, ?_, hr, by simp [ho]⟩
+  simp only [acceptPostfixOp]
+  generalize skipTrivia s0 = s at hr ho
+  have := afterTerm_cases hc
+  have h1 : c ≠ 63 := by omega
+  have h2 : c ≠ 42 := by omega
+  have h3 : c ≠ 43 := by omega
+  have h4 : c ≠ 123 := by omega
+  simp [peek_cons hr, h1, h2, h3, h4]
+
+/-- the tokens of a chain of postfix operators -/
+abbrev postsKV (posts : List Post) : List KV := (posts.map postKV).flatten
+
+theorem sp_postfixLoop_g : ∀ (posts : List Post) (n : Nat) (F t tl : Text), posts.length < n →
+    Hd afterTerm tl → Sc (postsKV posts) t tl → Tr F t →
+    Sp (postfixLoop n) F () tl (postsKV posts) := by
+  intro posts
+  induction posts with
+  | nil =>
+    intro n F t tl hn htl hs hF
+    have := sc_nil_inv hs; subst this
+    cases n with
+    | zero => omega
+    | succ n =>
+      unfold postfixLoop
+      sp_begin
+      sp_step (sp_postfixOp_no_g hF htl)
+      exact Sp.pure () _
+      case hi => rfl
+      case hk => simp [postsKV]
+  | cons p posts ih =>
+    intro n F t tl hn htl hs hF
+    cases n with
+    | zero => omega
+    | succ n =>
+      have hn' : posts.length < n := by simp at hn; omega
+      have hs' : Sc (postKV p ++ postsKV posts) t tl := by simpa [postsKV] using hs
+      obtain ⟨m, h1, h2⟩ := sc_append _ hs'
+      obtain ⟨F', hF', hop⟩ := sp_postfixOp_g p h1 hF
+      unfold postfixLoop
+      sp_begin
+      sp_step hop
+      exact ih n F' m tl hn' htl h2 hF'
+      case hi => rfl
+      case hk => simp [postsKV]
+
+theorem posts_length_le_g : ∀ (posts : List Post) {t tl : Text}, Sc (postsKV posts) t tl →
+    posts.length + tl.length ≤ t.length := by
+  intro posts
+  induction posts with
+  | nil => intro t tl h; have := sc_nil_inv h; subst this; simp
+  | cons p posts ih =>
+    intro t tl h
+    have h' : Sc (postKV p ++ postsKV posts) t tl := by simpa [postsKV] using h
+    obtain ⟨m, h1, h2⟩ := sc_append _ h'
+    have := ih h2
+    have h3 : 1 + m.length ≤ t.length := by
+      cases p <;> simp only [postKV] at h1 <;> have := sc_cons_length h1 <;>
+        simp [spell] at this <;> omega
+    simp; omega
+
+/-- `accept_postfix_ops` behind a node -/
+theorem sp_acceptPostfixOps_g (posts : List Post) {F t tl : Text} (htl : Hd afterTerm tl)
+    (hs : Sc (postsKV posts) t tl) (hF : Tr F t) :
+    Sp acceptPostfixOps F () tl (postsKV posts) := by
+  unfold acceptPostfixOps
+  apply Sp.lenFuel posts.length
+  · have h1 := posts_length_le_g posts hs
+    have h2 := hF.length_le
+    omega
+  · intro n hn
+    exact sp_postfixLoop_g posts n F t tl hn htl hs hF
+
+/-! ### `PEEK[a..b]` -/
+
+theorem sp_optInteger_g (a : Option Int) {t tl : Text} (hs : Sc (optIntKV a) t tl)
+    (h : Hd (fun c => c == 46 || c == 93) tl) : Sp optInteger t () tl (optIntKV a) := by
+  cases a with
+  | none =>
+    have := sc_nil_inv (by simpa [optIntKV] using hs); subst this
+    have := sp_optInteger none h
+    simpa [optIntKV] using this
+  | some i =>
+    have hst : Stop tl := h.stop (fun c hc => by
+      simp only [Bool.or_eq_true, beq_iff_eq] at hc
+      rcases hc with hc | hc <;> subst hc <;> decide)
+    simp only [optIntKV] at hs
+    obtain ⟨w, m, hw, rfl, h3⟩ := sc_cons_inv hs
+    have := sc_nil_inv h3; subst this
+    have hnd : Hd ndg (w ++ m) := isTrivia_hd ndg_of_not_tokc hw (h.mono (fun c hc => by
+      simp only [Bool.or_eq_true, beq_iff_eq] at hc
+      rcases hc with hc | hc <;> subst hc <;> decide))
+    unfold optInteger
+    sp_begin
+    sp_step (sp_scanEmit .integer (mInteger_int_g i hnd))
+    exact sp_triv_w hw hst
+    case hi => simp [spell]
+    case hk => simp [optIntKV]
+
+theorem slice_class_32 : (fun c => (c == 46 || c == 93) || isDigit c || c == 45) 32 = false := by
+  decide
+
+/-- `PEEK` followed by a slice -/
+theorem sp_peekTail_slice_g (a b : Option Int) {F t tl : Text} (hs : Sc (sliceKV a b) t tl)
+    (hF : Tr F t) : ∃ F', Tr F' tl ∧ Sp peekTail F true F' (sliceKV a b) := by
+  have hs' : Sc ((.lbracket, [91]) :: (optIntKV a ++ ((.rangeOp, [46, 46]) ::
+      (optIntKV b ++ [(.rbracket, [93])])))) t tl := by simpa [sliceKV] using hs
+  obtain ⟨w0, t1, hw0, rfl, h1⟩ := sc_cons_inv hs'
+  obtain ⟨t2, hA, h2⟩ := sc_append _ h1
+  obtain ⟨w1, t3, hw1, rfl, h3⟩ := sc_cons_inv h2
+  obtain ⟨t4, hB, h4⟩ := sc_append _ h3
+  obtain ⟨w2, m, hw2, rfl, h5⟩ := sc_cons_inv h4
+  have := sc_nil_inv h5; subst this
+  have hdB : Hd (fun c => c == 46 || c == 93) (93 :: (w2 ++ m)) := by simp
+  have hdA : Hd (fun c => c == 46 || c == 93) (sDOTS ++ (w1 ++ t3)) := by simp [sDOTS]
+  have hB' : Sc (optIntKV b) t3 (93 :: (w2 ++ m)) := by simpa [spell] using hB
+  have hA' : Sc (optIntKV a) t1 (sDOTS ++ (w1 ++ t3)) := by simpa [spell, sDOTS] using hA
+  have tk : ∀ c, ((c == 46 || c == 93) || isDigit c || c == 45) = true → tokc c = true := by
+    intro c hc
+    simp only [Bool.or_eq_true, beq_iff_eq] at hc
+    rcases hc with ((hc | hc) | hc) | hc
+    · subst hc; decide
+    · subst hc; decide
+    · exact tokc_digit hc
+    · subst hc; decide
+  have hstA : Stop t1 := (sc_hd hA' (hd_optInt a hdA) slice_class_32).stop tk
+  have hstB : Stop t3 := (sc_hd hB' (hd_optInt b hdB) slice_class_32).stop tk
+  refine ⟨w2 ++ m, Tr.mk hw2 m, ?_⟩
+  unfold peekTail
+  sp_begin
+  sp_step (sp_triv_tr hF (stop_tokc (c := 91) (w0 ++ t1) (by decide)))
+  sp_step (sp_optChar 91 .lbracket _)
+  sp_step (sp_triv_w hw0 hstA)
+  sp_step (sp_optInteger_g a hA' hdA)
+  sp_step (sp_scanOrError .rangeOp .expectedRangeOp (mLit_dots _))
+  sp_step (sp_triv_w hw1 hstB)
+  sp_step (sp_optInteger_g b hB' hdB)
+  sp_step (sp_expect 93 .rbracket .expectedRParen _)
+  exact Sp.pure true _
+  case hi => rfl
+  case hk => simp [sliceKV, sDOTS]
+
+theorem sp_peekTail_no_g {F tl : Text} (h : Tr F tl) (htl : Hd afterNode tl) :
+    Sp peekTail F true tl [] := by
+  unfold peekTail
+  sp_begin
+  sp_step (sp_triv_tr h (htl.stop @tokc_afterNode))
+  sp_step (sp_optChar_no 91 .lbracket (head_ne_of_hd htl (by decide)))
+  exact Sp.pure true _
+  case hi => rfl
+  case hk => simp
+
+/-! ### character ranges -/
+
+theorem sp_charRange_g (a b : Nat) {t tl : Text}
+    (hs : Sc [(.char, charLit a), (.rangeOp, [46, 46]), (.char, charLit b)] t tl) :
+    ∃ F', Tr F' tl ∧ Sp charRange t true F'
+      [(.char, charLit a), (.rangeOp, [46, 46]), (.char, charLit b)] := by
+  obtain ⟨w1, m1, hw1, rfl, h1⟩ := sc_cons_inv hs
+  obtain ⟨w2, m2, hw2, rfl, h2⟩ := sc_cons_inv h1
+  obtain ⟨w3, m3, hw3, rfl, h3⟩ := sc_cons_inv h2
+  have := sc_nil_inv h3; subst this
+  obtain ⟨rb, hb⟩ := charLit_cons b
+  refine ⟨w3 ++ m3, Tr.mk hw3 m3, ?_⟩
+  unfold charRange
+  sp_begin
+  sp_step (sp_scanEmit .char (mChar_charLit a (w1 ++ (sDOTS ++ (w2 ++ (charLit b ++ (w3 ++ m3)))))))
+  sp_step (sp_triv_w hw1 (stop_tokc _ (by decide)))
+  sp_step (sp_scanOrError .rangeOp .expectedRangeOp (mLit_dots _))
+  sp_step (sp_triv_w hw2 (by rw [hb]; exact stop_tokc _ (by decide)))
+  sp_step (sp_scanOrError .char .expectedChar (mChar_charLit b (w3 ++ m3)))
+  exact Sp.pure true _
+  case hi => simp [spell, sDOTS]
+  case hk => simp [sDOTS]
+
+/-! ### modifiers -/
+
+theorem sp_optModifier_g (m : Option Nat)
+    (hm : match m with | some c => c = 95 ∨ c = 64 ∨ c = 36 ∨ c = 33 | none => True)
+    {t X : Text} (hs : Sc (modKV m) t (123 :: X)) :
+    Sp optModifier t () (123 :: X) (modKV m) := by
+  cases m with
+  | none =>
+    have := sc_nil_inv (by simpa [modKV] using hs); subst this
+    have := sp_optModifier none trivial X
+    simpa [modKV] using this
+  | some c =>
+    simp only at hm
+    simp only [modKV] at hs
+    obtain ⟨w, m', hw, rfl, h3⟩ := sc_cons_inv hs
+    have := sc_nil_inv h3; subst this
+    unfold optModifier
+    sp_begin
+    sp_step (sp_scanEmit .modifier (w := [c]) (tl := w ++ 123 :: X)
+      (by rcases hm with h | h | h | h <;> subst h <;> simp [mModifier]))
+    exact sp_triv_w hw (stop_tokc _ (by decide))
+    case hi => simp [spell]
+    case hk => simp [modKV]
+
+end TRT
+end Front
+end Pest
